@@ -9,7 +9,8 @@
    socks_conflict, honours.  Proofs: Proof/AdjustChecks.v, AdjustLists.v, AdjustCli.v. *)
 From Coq Require Import List NArith ZArith Bool.
 From WV Require Import Lib.PyBytes Gen.GenAdjust Model.Adjust
-  Proof.AdjustSpec Proof.AdjustChecks Proof.AdjustLists Proof.AdjustCli.
+  Proof.AdjustSpec Proof.AdjustChecks Proof.AdjustLists Proof.AdjustCli Spec.AdjustCli Proof.AdjustCliAll
+  Proof.AdjustCliKw Proof.AdjustCliDocs.
 Import ListNotations.
 Local Open Scope N_scope.
 
@@ -208,3 +209,110 @@ Print Assumptions C20_asbool.
 Theorem C20_getopt_total : forall args lo, getopt args lo <> Exn OutOfFuel.
 Proof. exact getopt_fuel_enough. Qed.
 Print Assumptions C20_getopt_total.
+
+(* ====================================================================================
+   Command lines of ANY length (Spec/AdjustCli.v is the specification: option table
+   derived from `params`, exact-or-unique-prefix resolution, --x=v / --x v / --x / --no-x,
+   `--`, first non-option word, repeated options: last wins, --listen accumulates).
+   Domain: argv is any list of strings, a string is any list of code points.
+   ==================================================================================== *)
+
+(* getopt's long-option lookup is "exact name, else unique prefix" over the option table *)
+Theorem C20_long_option_resolution : forall typed, memb 61 typed = false ->
+  long_has_args typed cli_long_opts =
+  match resolve typed with
+  | Found n k => Ok (takes_value k, n)
+  | _ => Exn GetoptError
+  end.
+Proof. exact long_has_args_resolve. Qed.
+Print Assumptions C20_long_option_resolution.
+
+(* getopt.getopt(argv, "", long_opts) is the scanner of the specification, for every argv *)
+Theorem C20_getopt_scan : forall argv,
+  getopt argv cli_long_opts =
+  match scan argv with
+  | Refused _ => Exn GetoptError
+  | Scanned occs pos => Ok (map opt_of occs, pos)
+  end.
+Proof. exact getopt_scan. Qed.
+Print Assumptions C20_getopt_scan.
+
+(* the option loop of parse_args over any recognised occurrences: help/call flags, the last --app,
+   and the stored strings (last wins; listen accumulates) *)
+Theorem C20_parse_loop : forall occs h c rt app,
+  Forall (fun o : occ => In (fst o) option_table) occs ->
+  pa_loop (map opt_of occs) (hdr h c ++ vstrs rt) app
+  = Ok (hdr (h || has_help occs) (c || has_call occs) ++ vstrs (sfold (settings_of occs) rt),
+        app_fold occs app).
+Proof. exact pa_loop_occs. Qed.
+Print Assumptions C20_parse_loop.
+
+(* what parse_args stores ("true"/"false", " v1 v2" for listen, first-appearance order) and the keyword
+   form (True/False, "v1 v2", last occurrence) denote the same Adjustments *)
+Theorem C20_raw_keyword_equiv : forall e occs, Forall (fun o : occ => In (fst o) option_table) occs ->
+  construct e (vstrs (sfold (settings_of occs) [])) = construct e (keyword_form occs).
+Proof. exact raw_keyword_equiv. Qed.
+Print Assumptions C20_raw_keyword_equiv.
+
+(* THE theorem: runner.run on argv (getopt, parse_args, help / application checks, clean-up,
+   Adjustments(kw as keywords)) is the specification, for every argv and every platform *)
+Theorem C20_cli_all : forall e argv, cli_construct e argv = cli_spec e argv.
+Proof. exact cli_construct_spec. Qed.
+Print Assumptions C20_cli_all.
+
+(* refused <-> a word is refused by the grammar (unknown / ambiguous / missing value / value given to a
+   flag / short option), or without --help: no or more than one application, or the keyword form is
+   refused by Adjustments *)
+Theorem C20_cli_refused_iff : forall e argv,
+  (exists x, cli_construct e argv = Exn x) <-> cli_refusal e argv.
+Proof. exact cli_refused_iff. Qed.
+Print Assumptions C20_cli_refused_iff.
+
+(* accepted -> exactly the Adjustments of the keyword form *)
+Theorem C20_cli_accepted : forall e argv a, cli_construct e argv = Ok (Some a) ->
+  exists occs pos app, scan argv = Scanned occs pos /\ has_help occs = false
+    /\ choose_app occs pos = AppIs app /\ construct e (keyword_form occs) = Ok a.
+Proof. exact cli_accepted. Qed.
+Print Assumptions C20_cli_accepted.
+
+(* the application handed to resolve_wsgi_app: last --app or else the only positional word; called iff --call *)
+Theorem C20_cli_app : forall argv occs pos a, scan argv = Scanned occs pos ->
+  has_help occs = false -> choose_app occs pos = AppIs a ->
+  exists kw, parse_args argv = Ok kw /\ dict_get k_app kw = Some (VApp a (has_call occs)).
+Proof. exact parse_args_app. Qed.
+Print Assumptions C20_cli_app.
+
+(* the hypotheses are satisfiable: --li=a:1 --no-ipv6 --listen b:2 --thr 3 --threads=5 --ipv6 --no-ipv6 m:app *)
+Theorem C20_cli_all_example :
+  exists a, cli_construct {| has_ipv6 := true; has_af_unix := true |} example_argv = Ok (Some a)
+    /\ dict_get k_listen a = Some (SAddrs [(false, [97], 1); (false, [98], 2)])
+    /\ dict_get k_ipv6 a = Some (SBool false).
+Proof. exact example_cli. Qed.
+Print Assumptions C20_cli_all_example.
+
+(* ---------- documentation: every stated default, the header kinds ---------- *)
+(* every default stated in docs/arguments.rst and docs/runner.rst, and every default stated in
+   runner.HELP except `--send-bytes ... Default is 18000`, is the effective default (the attribute of
+   Adjustments() built without arguments), the documented literal being read through the cast of its
+   parameter; on every platform *)
+Theorem C20_docs_defaults_partial : forall e,
+  (forall r, In r docs_defaults -> doc_row_ok e r = true)
+  /\ (forall r, In r runner_rst_defaults -> doc_row_ok e r = true)
+  /\ (forall r, In r help_defaults -> r <> help_send_bytes_row -> doc_row_ok e r = true).
+Proof. exact docs_defaults_ok. Qed.
+Print Assumptions C20_docs_defaults_partial.
+
+(* the excluded row is wrong: send_bytes does not default to 18000 (finding kf_c20_help_send_bytes) *)
+Theorem C20_docs_defaults_refuted : forall e, doc_row_ok e help_send_bytes_row = false.
+Proof. exact help_send_bytes_refuted. Qed.
+Print Assumptions C20_docs_defaults_refuted.
+
+(* the implemented proxy header kinds are the six the property names; arguments.rst, runner.HELP and
+   runner.rst each name exactly those *)
+Theorem C20_header_kinds : forall h,
+  (In h known_proxy_headers <-> In h spec_known_headers)
+  /\ (In h docs_proxy_headers <-> In h spec_known_headers)
+  /\ (In h help_proxy_headers <-> In h spec_known_headers)
+  /\ (In h runner_rst_proxy_headers <-> In h spec_known_headers).
+Proof. exact header_kinds_documented. Qed.
+Print Assumptions C20_header_kinds.
